@@ -174,7 +174,7 @@ def race_in_replay(binp, work, planfile, sig, godebug=None, attempts=1):
     return False
 
 
-def race_replay(work, binp, sig, rep, tier, replaydir):
+def race_replay(work, binp, sig, rep, tier, replaydir, minimise=True):
     """Turn a race report into a minimised, verified replay file."""
     godebug = "httpmuxgo121=1" if rep["shard"] % 2 == 1 else None
     e = env_go()
@@ -189,7 +189,7 @@ def race_replay(work, binp, sig, rep, tier, replaydir):
     plan["expect"] = sig
     plan["detail"] = rep["text"][:1500]
 
-    def holds(steps, attempts=5):
+    def holds(steps, attempts=4):
         q = dict(plan); q["steps"] = steps
         tmp = os.path.join(work.dir, "racetry.json")
         json.dump(q, open(tmp, "w"))
@@ -197,9 +197,9 @@ def race_replay(work, binp, sig, rep, tier, replaydir):
 
     steps = plan["steps"]
     full = steps
-    repro = holds(steps, 16)
-    budget = 24
-    if repro:
+    repro = holds(steps, 16 if minimise else 6)
+    budget = 16
+    if repro and minimise:
         # drop whole clients first, then single actions
         for b in sorted(set(s["b"] for s in steps), reverse=True):
             if budget <= 0:
@@ -282,8 +282,10 @@ def run_check(prop, tier):
             seen = {}
             for r in reports:
                 seen.setdefault(r["sig"], r)
-            for sig, r in sorted(seen.items()):
-                race_viols.append(race_replay(work, binp, sig, r, tier, replaydir))
+            for i, (sig, r) in enumerate(sorted(seen.items())):
+                # minimising is costly (every candidate schedule is replayed several times): the first
+                # two distinct reports are minimised, further ones get their full schedule as the replay file
+                race_viols.append(race_replay(work, binp, sig, r, tier, replaydir, minimise=i < 2))
 
         # determinism spot check: shard 0's first runs again, other GOMAXPROCS
         d0 = results[0].get("digests") or {}
